@@ -7,10 +7,12 @@ import VaxisModel.Spec.VT500
 import VaxisModel.Lemmas.ParserConform
 import VaxisModel.Lemmas.ParserParams
 import VaxisModel.Lemmas.Parser
+import VaxisModel.Lemmas.ParserAbs
 
 namespace VaxisModel.Props.C02
 open VaxisModel.Model.ParserTable VaxisModel.Model.Parser
 open VaxisModel.Lemmas.ParserConform VaxisModel.Lemmas.ParserParams VaxisModel.Lemmas.Parser
+open VaxisModel.Lemmas.ParserAbs
 
 /-! ## The table -/
 
@@ -101,5 +103,235 @@ example : (⟨none, [[38, 2, 0, 255, 128, 0], [1]], [], 0x6D⟩ : CsiVal).WF := 
 example : (⟨some 0x3F, [[2026]], [0x24], 0x70⟩ : CsiVal).WF := by
   refine ⟨by simp, ?_, by simp, by decide, by decide⟩
   intro p hp; simp at hp; subst hp; constructor <;> simp
+
+/-- **ESC round trip.** `ESC <intermediates> <final>`: without intermediates for every final the
+    escape state dispatches (30–7F except the introducers `O P X [ \ ] ^ _`; 7F is Alt+Backspace),
+    with intermediates for every final 30–7E — exactly one ESC item with the exact intermediates. -/
+theorem esc_roundtrip (s : PState) (he : s.exit = none) (inters : List Nat) (final : Nat)
+    (hi : ∀ b ∈ inters, 0x20 ≤ b ∧ b ≤ 0x2F)
+    (hf : if inters = [] then EscFinal final else 0x30 ≤ final ∧ final ≤ 0x7E) :
+    run s (0x1B :: (inters ++ [final])) =
+      ({ s with state := .ground, inter := [], params := [], ignoreST := false }, [.esc inters final]) := by
+  simp only [run, pstep_esc s he]
+  cases inters with
+  | nil =>
+    simp only [if_true] at hf
+    simp only [List.nil_append, run]
+    rw [escape_final _ rfl final hf]
+    simp
+  | cons b w =>
+    simp only [List.cons_ne_nil, if_false] at hf
+    have hb := hi b (by simp)
+    simp only [List.cons_append, run]
+    rw [escape_inter _ rfl b hb.1 hb.2]
+    simp only []
+    rw [run_append, run_escInters w (fun b' hb' => hi b' (by simp [hb'])) _ rfl]
+    simp only [run]
+    rw [escInt_final _ rfl final hf.1 hf.2]
+    simp
+
+/-- `ESC \` typed as a key (no control string open) is delivered as an escape sequence. -/
+theorem esc_backslash_roundtrip (s : PState) (he : s.exit = none) (hi : s.ignoreST = false) :
+    run s [0x1B, 0x5C] = ({ s with state := .ground, inter := [], params := [] }, [.esc [] 0x5C]) := by
+  simp only [run, pstep_esc s he]
+  rw [escape_backslash _ rfl (by exact hi)]
+  simp
+
+/-- **SS3 round trip.** `ESC O c` for every rune `c ≥ 0x20` other than DEL (DEL is skipped). -/
+theorem ss3_roundtrip (s : PState) (he : s.exit = none) (c : Nat) (h1 : 0x20 ≤ c) (h2 : c ≠ 0x7F) :
+    run s [0x1B, 0x4F, c] =
+      ({ s with state := .ground, inter := [], params := [], ignoreST := false }, [.ss3 c]) := by
+  simp only [run, pstep_esc s he]
+  rw [escape_ss3 _ rfl]
+  simp only []
+  rw [ss3_final _ rfl c h1 h2]
+  simp
+
+/-- **OSC round trip, BEL-terminated.** Every payload of runes ≥ 0x20 (any length, including
+    non-ASCII) is delivered exactly once, exactly, and the accumulator is left empty. -/
+theorem osc_roundtrip_bel (s : PState) (he : s.exit = none) (ho : s.osc = []) (p : List Nat)
+    (hp : ∀ b ∈ p, 0x20 ≤ b) :
+    run s (0x1B :: 0x5D :: (p ++ [0x07])) =
+      ({ s with state := .ground, inter := [], params := [], ignoreST := false, osc := [], exit := none },
+       [.osc p]) := by
+  simp only [run, pstep_esc s he]
+  rw [escape_osc _ rfl]
+  simp only []
+  rw [run_append, run_osc p hp _ rfl]
+  simp only [run]
+  rw [osc_bel _ rfl rfl]
+  simp [ho]
+
+/-- **OSC round trip, ST-terminated**, for a non-empty payload: the OSC is delivered when the ESC
+    arrives and the `\` that completes the ST delivers nothing.  (For the empty payload see
+    `Witness.F102`.) -/
+theorem osc_roundtrip_st (s : PState) (he : s.exit = none) (ho : s.osc = []) (p : List Nat)
+    (hp : ∀ b ∈ p, 0x20 ≤ b) (hne : p ≠ []) :
+    run s (0x1B :: 0x5D :: (p ++ [0x1B, 0x5C])) =
+      ({ s with state := .ground, inter := [], params := [], ignoreST := false, osc := [], exit := none },
+       [.osc p]) := by
+  simp only [run, pstep_esc s he]
+  rw [escape_osc _ rfl]
+  simp only []
+  rw [run_append, run_osc p hp _ rfl]
+  simp only [run]
+  rw [pstep_esc_exit _ .oscEnd rfl]
+  simp only [runExitFn]
+  rw [escape_st _ rfl (by cases p <;> simp_all)]
+  simp [ho]
+
+/-- **APC round trip** (ST-terminated, non-empty payload of runes ≥ 0x20). -/
+theorem apc_roundtrip (s : PState) (he : s.exit = none) (ha : s.apc = []) (p : List Nat)
+    (hp : ∀ b ∈ p, 0x20 ≤ b) (hne : p ≠ []) :
+    run s (0x1B :: 0x5F :: (p ++ [0x1B, 0x5C])) =
+      ({ s with state := .ground, inter := [], params := [], ignoreST := false, apc := [], exit := none },
+       [.apc p]) := by
+  simp only [run, pstep_esc s he]
+  rw [escape_apc _ rfl]
+  simp only []
+  rw [run_append, run_apc p hp _ rfl]
+  simp only [run]
+  rw [pstep_esc_exit _ .apcUnhook rfl]
+  simp only [runExitFn]
+  rw [escape_st _ rfl (by cases p <;> simp_all)]
+  simp [ha]
+
+/-- After a BEL-terminated OSC a genuine `ESC \` is delivered (the repaired F05: `ignoreST` no
+    longer survives the string). -/
+theorem st_after_bel_terminated_osc (s : PState) (he : s.exit = none) (ho : s.osc = []) (p : List Nat)
+    (hp : ∀ b ∈ p, 0x20 ≤ b) :
+    (run s (0x1B :: 0x5D :: (p ++ [0x07]) ++ [0x1B, 0x5C])).2 = [.osc p, .esc [] 0x5C] := by
+  rw [run_append, osc_roundtrip_bel s he ho p hp]
+  simp only []
+  rw [esc_backslash_roundtrip _ rfl rfl]
+  simp
+
+example : EscFinal 0x7F := by unfold EscFinal; omega   -- Alt+Backspace
+example : EscFinal 0x37 := by unfold EscFinal; omega   -- DECSC
+
+/-! ## Invariants: exit action, ST flag, no panic -/
+
+/-- The invariant of the run loop: `p.exit` is exactly the exit function of the current state
+    (`oscEnd` in oscString, `unhook` in dcsPassthrough, `apcUnhook` in apc, nil elsewhere) and
+    `ignoreST` is only set inside a control string or in the escape state. -/
+def Inv (s : PState) : Prop := invB (α s) = true
+
+theorem inv_init : Inv PState.init := by unfold Inv; decide
+
+/-- **The invariant is preserved, nothing panics, only eof stops the loop** — for every state
+    satisfying the invariant and every input (all runes, and eof).  In particular the unguarded
+    `p.exit()` on BEL in oscString is never a nil call, and the private `eof` arm of
+    csiIntermediate (F08) is dead code: `anywhere` has already returned nil. -/
+theorem invariant_step (s : PState) (h : Inv s) (i : Inp) :
+    (isEof i = false → Inv (pstep s i).st) ∧ Seq.panic ∉ (pstep s i).out ∧ (pstep s i).stop = isEof i :=
+  inv_step_of_ok handTable (by decide +kernel) (by decide +kernel) s h i
+
+/-- … hence along every run from the initial state. -/
+theorem run_invariant (s : PState) (h : Inv s) (w : List Nat) :
+    Inv (run s w).1 ∧ Seq.panic ∉ (run s w).2 := by
+  induction w generalizing s with
+  | nil => exact ⟨h, by simp [run]⟩
+  | cons r w ih =>
+    obtain ⟨h1, h2, _⟩ := invariant_step s h (.rune r)
+    obtain ⟨g1, g2⟩ := ih _ (h1 rfl)
+    simp only [run]
+    exact ⟨g1, by simp [h2, g2]⟩
+
+/-- Reachable states: the exit function matches the state, and outside control strings and the
+    escape state the ST-suppression flag is clear (so a later `ESC \` is delivered). -/
+theorem reachable_exit_and_flag (w : List Nat) :
+    (run PState.init w).1.exit = implExit (run PState.init w).1.state ∧
+    ((run PState.init w).1.state = .ground → (run PState.init w).1.ignoreST = false) := by
+  have h := (invB_spec _).mp (run_invariant PState.init inv_init w).1
+  simp only [α] at h
+  refine ⟨h.1, fun hg => ?_⟩
+  cases hi : (run PState.init w).1.ignoreST with
+  | false => rfl
+  | true =>
+    rcases h.2 hi with h2 | h2
+    · rw [hg] at h2; exact absurd h2 (by decide)
+    · rw [hg] at h2; exact absurd h2 (by decide)
+
+/-! ## Malformed sequences, text -/
+
+/-- **A malformed sequence delivers nothing.** In csiIgnore, dcsIgnore and sosPm every rune other
+    than CAN/SUB/ESC emits at most C0 items (the controls that csiIgnore still executes); no
+    sequence item is ever delivered from these states. -/
+theorem malformed_delivers_nothing (s : PState)
+    (hs : s.state = .csiIgnore ∨ s.state = .dcsIgnore ∨ s.state = .sosPm)
+    (r : Nat) (h1 : r ≠ 0x18) (h2 : r ≠ 0x1A) (h3 : r ≠ 0x1B) :
+    ∀ x ∈ (pstep s (.rune r)).out, ∃ c, x = Seq.c0 c := by
+  have hq : quietRow ((handFn s.state).row (.rune r)) = true := by
+    rcases hs with h | h | h <;> rw [h] <;>
+      exact row_forall _ (fun row => quietRow row = true) (by decide) (by decide +kernel) r
+  rw [pstep_plain s r h1 h2 h3]
+  simp only [quietRow, Bool.and_eq_true, bne_iff_ne, ne_eq] at hq
+  have hq' : ∀ a ∈ ((handFn s.state).row (.rune r)).1, a = .execute ∨ a = .setIgnoreST := by
+    intro a ha
+    have := (List.all_eq_true.mp hq.1) a ha
+    simpa using this
+  obtain ⟨hout, hnext⟩ := runActs_quiet _ hq' r s [] ((handFn s.state).row (.rune r)).2 (by simp)
+  intro x hx
+  apply hout
+  generalize runActs ((handFn s.state).row (.rune r)).1 (.rune r) s [] ((handFn s.state).row (.rune r)).2 = res
+    at hx hnext ⊢
+  obtain ⟨s', o, n⟩ := res
+  simp only at hnext
+  have hnd := hq.2
+  rw [← hnext] at hnd
+  cases n <;> simp_all [finish]
+
+/-- … and they stay there (or, for csiIgnore, return to ground on the final byte). -/
+theorem malformed_stays (s : PState)
+    (hs : s.state = .csiIgnore ∨ s.state = .dcsIgnore ∨ s.state = .sosPm)
+    (r : Nat) (h1 : r ≠ 0x18) (h2 : r ≠ 0x1A) (h3 : r ≠ 0x1B) :
+    (pstep s (.rune r)).st.state = s.state ∨
+    (s.state = .csiIgnore ∧ 0x40 ≤ r ∧ r ≤ 0x7E ∧ (pstep s (.rune r)).st.state = .ground) := by
+  have key : ∀ a : AS, (a.state = .csiIgnore ∨ a.state = .dcsIgnore ∨ a.state = .sosPm) →
+      ∀ c, (c ≠ 0x18 ∧ c ≠ 0x1A ∧ c ≠ 0x1B) → ((aStep handTable a (.rune c)).1.state = a.state ∨
+        (a.state = .csiIgnore ∧ 0x40 ≤ c ∧ c ≤ 0x7E ∧ (aStep handTable a (.rune c)).1.state = .ground)) := by
+    intro a ha c hne
+    by_cases hc : c ≤ cut
+    · have : ∀ a ∈ ([.csiIgnore, .dcsIgnore, .sosPm] : List StateId).flatMap
+          (fun st => [none, some ExitFn.oscEnd, some .unhook, some .apcUnhook].flatMap
+            fun e => [(⟨st, e, false⟩ : AS), ⟨st, e, true⟩]),
+          ∀ c ∈ List.range (cut + 1), (c ≠ 0x18 ∧ c ≠ 0x1A ∧ c ≠ 0x1B) →
+            ((aStep handTable a (.rune c)).1.state = a.state ∨
+            (a.state = .csiIgnore ∧ 0x40 ≤ c ∧ c ≤ 0x7E ∧ (aStep handTable a (.rune c)).1.state = .ground)) := by
+        decide +kernel
+      apply this a _ c (List.mem_range.mpr (by omega)) hne
+      obtain ⟨st, e, g⟩ := a
+      simp only at ha
+      rcases ha with h | h | h <;> subst h <;> cases g <;> rcases e with _ | e <;> try cases e
+      all_goals simp
+    · have habove := aStep_above handTable (by decide +kernel) a c (by omega)
+      rw [habove]
+      have : ∀ a ∈ ([.csiIgnore, .dcsIgnore, .sosPm] : List StateId).flatMap
+          (fun st => [none, some ExitFn.oscEnd, some .unhook, some .apcUnhook].flatMap
+            fun e => [(⟨st, e, false⟩ : AS), ⟨st, e, true⟩]),
+            (aStep handTable a (.rune cut)).1.state = a.state := by
+        decide +kernel
+      left
+      apply this a
+      obtain ⟨st, e, g⟩ := a
+      simp only at ha
+      rcases ha with h | h | h <;> subst h <;> cases g <;> rcases e with _ | e <;> try cases e
+      all_goals simp
+  have h := (step_abs handTable s (.rune r)).1
+  have := key (α s) hs r ⟨h1, h2, h3⟩
+  simp only [α] at h this
+  have hst : (pstep s (.rune r)).st.state = (aStep handTable ⟨s.state, s.exit, s.ignoreST⟩ (.rune r)).1.state := by
+    have := congrArg AS.state h
+    simpa [pstep] using this
+  rw [hst]
+  exact this
+
+/-- **Text is delivered in order** (rune level): from ground, a run of runes ≥ 0x20 (every
+    printable ASCII character, DEL, and every rune ≥ 0x80 — valid scalars and raw invalid bytes
+    alike) is delivered as one print each, in order, nothing lost, duplicated or altered.
+    (Grouping into grapheme clusters is the reader's job: `Model/ParserIO.lean`.) -/
+theorem text_in_order (s : PState) (hs : s.state = .ground) (w : List Nat) (hw : ∀ b ∈ w, 0x20 ≤ b) :
+    run s w = (s, w.map .print) :=
+  run_ground_text w hw s hs
 
 end VaxisModel.Props.C02
